@@ -11,6 +11,7 @@ import Pumpkin.Check.Oracle
 import Pumpkin.Model.SemMin
 import Pumpkin.Model.RecMin
 import Pumpkin.Model.PropagationCompile
+import Pumpkin.Model.Search
 
 namespace Pumpkin.C02
 
@@ -122,5 +123,36 @@ theorem search_conflict_sound (n : Nat) (ps : List Pg.PropInst) (hw : ∀ p ∈ 
 
 example : Pg.rootFix [[0, 1], [0, 1]] [Cons.linLe [⟨-1, 0, 0⟩, ⟨-1, 0, 1⟩] (-2), Cons.linNe [⟨1, 0, 0⟩, ⟨-1, 0, 1⟩] 0]
     = some none := by decide
+
+
+/-! ### the search loop (`Model/Search.lean`: no learning, no restarts)
+
+Tied to the real solver by the `nlsearch` records: the decisions of a real
+`ConflictResolver::NoLearning` solve are replayed through the model, which must be in exactly the same
+domains at every decision point (also after every backtrack) and end with the same answer. -/
+
+/-- Whatever the decision strategy does, the model of the search loop answers `unsat` only if no
+assignment within the domains it started from satisfies the constraints of all propagators. -/
+theorem nolearning_search_unsat_sound {σ : Type} (ps : List Pg.PropInst) (strat : σ → Pg.Doms → Pg.Choice σ)
+    (fuel : Nat) (s : σ) (d0 : Pg.Doms) (h : Pg.search ps strat fuel s d0 [] = .unsat) (a : List Int)
+    (hw : ∀ p ∈ ps, p.Wf a.length) (hsw : Pg.StratWf a.length strat) (hin : inDoms d0 a = true) :
+    ¬ ∀ p ∈ ps, p.cons.sat a = true := by
+  intro hsat
+  exact Pg.search_unsat_sound ps strat a hw hsw hsat fuel s d0 [] (fun _ hf => by cases hf)
+    (Or.inl ⟨d0, rfl, hin⟩) h
+
+/-- … and `sat a` only for an assignment satisfying all of them. -/
+theorem nolearning_search_sat_sound {σ : Type} (ps : List Pg.PropInst) (strat : σ → Pg.Doms → Pg.Choice σ)
+    (fuel : Nat) (s : σ) (d0 : Pg.Doms) (a : List Int) (h : Pg.search ps strat fuel s d0 [] = .sat a)
+    (hw : ∀ p ∈ ps, p.Wf a.length) (hpre : ∀ p ∈ ps, p.Pre a) : ∀ p ∈ ps, p.cons.sat a = true :=
+  Pg.search_sat_sound ps strat a fuel s d0 [] h hw hpre
+
+-- x0 + x1 ≤ 1, x0 ≠ x1 over {0,1}²: deciding x0 = 1 first needs no backtrack, deciding x0 ≤ 0 and x1 ≤ 0 does
+example : Pg.search [.linLe [⟨1, 0, 0⟩, ⟨1, 0, 1⟩] 1, .linNe [⟨1, 0, 0⟩, ⟨-1, 0, 1⟩] 0]
+    (fun (s : List Atom) _ => match s with | p :: r => .decide p r | [] => .done) 5 [Atom.le 0 0] [[0, 1], [0, 1]] []
+    = .sat [0, 1] := by decide
+example : Pg.search [.linLe [⟨1, 0, 0⟩, ⟨1, 0, 1⟩] 1, .linNe [⟨1, 0, 0⟩, ⟨-1, 0, 1⟩] 0, .linLe [⟨-1, 0, 0⟩, ⟨-1, 0, 1⟩] (-2)]
+    (fun (s : List Atom) _ => match s with | p :: r => .decide p r | [] => .done) 5 [Atom.le 0 0] [[0, 1], [0, 1]] []
+    = .unsat := by decide
 
 end Pumpkin.C02
